@@ -80,3 +80,6 @@ M("c09-cancelled-waiter-removes-wrong-object", "C09", A, "Lock.acquire", "      
 M("c09-aenter-checkpoints-after-acquire", "C09", SYNC, "Lock.__aenter__", "        await self.acquire()\n", "        await self.acquire()\n        await checkpoint_if_cancelled()\n", ["R09-g"])
 M("c09-release-drops-waiter-with-pending-cancel-request", "C09", A, "Lock.release", "            if fut.cancelled():\n                continue\n\n            self._owner_task = task",
   "            if fut.cancelled() or task.cancelling() > 0:\n                continue\n\n            self._owner_task = task", ["R09-b"])
+N("c09-n-release-negated-liveness-test", "C09", A, "Lock.release",
+  "            if fut.cancelled():\n                continue\n\n            self._owner_task = task\n            fut.set_result(None)\n            return",
+  "            if not fut.cancelled():\n                self._owner_task = task\n                fut.set_result(None)\n                return")
